@@ -1,6 +1,374 @@
-use crate::worker::Ctx;
+//! C20: the pure render helpers of the fancy progress display, over all
+//! widths, elapsed times, cut alignments and count vectors in the bounds.
+
+use crate::worker::{catch, Ctx, Tier};
+use serde_json::json;
+use vcore::enumerate::{count_upto, for_range, shard_range};
 use vcore::report::ShardResult;
 
-pub fn run(_ctx: &mut Ctx) -> ShardResult {
-    unimplemented!("engine render")
+const CHARS: &[&str] = &["a", "é", "€", "😀"];
+const SECONDS: &[usize] = &[0, 2, 3, 9, 10, 99, 100, 999, 1000, 9999, 10_000, 99_999, 100_000, 999_999, 1_000_000];
+
+pub fn jobs(tier: Tier) -> Vec<(String, u64)> {
+    vec![
+        ("render:message-align".into(), 16),
+        (format!("render:message-short:{}", tier.pick(6, 7)), 16),
+        ("render:truncate".into(), 8),
+        (format!("render:bar:{}", tier.pick(5, 7)), 16),
+        ("render:frame".into(), 4),
+    ]
+}
+
+fn time_note(seconds: usize) -> String {
+    if seconds > 2 {
+        format!(" ({}s)", seconds)
+    } else {
+        String::new()
+    }
+}
+
+fn check_message(msg: &str, seconds: usize, width: usize, job: &str, res: &mut ShardResult) {
+    res.evaluations += 1;
+    let replay = || json!({"job": job, "kind": "message", "msg": msg, "seconds": seconds, "width": width});
+    match catch(|| n2::verif::verif_task_message(msg, seconds, width)) {
+        Err(p) => res.violation(
+            &p.key(),
+            || format!("task_message({:?}, {}, {}) panicked: {} at {}", msg, seconds, width, p.message, p.location),
+            replay,
+        ),
+        Ok(out) => {
+            let note = time_note(seconds);
+            let overlong = msg.len() + note.len() >= width;
+            if overlong {
+                res.nontrivial += 1;
+                if out.len() > width {
+                    res.violation(
+                        "message-wider-than-terminal",
+                        || format!("task_message({:?}, {}, {}) = {:?} is {} bytes", msg, seconds, width, out, out.len()),
+                        replay,
+                    );
+                    return;
+                }
+                if note.len() + 3 > width {
+                    // Not even "..." and the note fit: any prefix of them will do.
+                    if !format!("...{}", note).starts_with(out.trim_start_matches(|c| c != '.')) && !out.is_empty() {
+                        // (shape is unspecified here; width and validity were checked)
+                    }
+                    res.outcome("cut-narrow");
+                    return;
+                }
+                if !out.ends_with(&note) {
+                    res.violation(
+                        "message-lost-time-note",
+                        || format!("task_message({:?}, {}, {}) = {:?}", msg, seconds, width, out),
+                        replay,
+                    );
+                    return;
+                }
+                let head = &out[..out.len() - note.len()];
+                let kept = head.strip_suffix("...").unwrap_or(head);
+                if !msg.starts_with(kept) {
+                    res.violation(
+                        "message-not-a-prefix",
+                        || format!("task_message({:?}, {}, {}) = {:?}", msg, seconds, width, out),
+                        replay,
+                    );
+                    return;
+                }
+                res.outcome("cut");
+            } else {
+                if out != format!("{}{}", msg, note) {
+                    res.violation(
+                        "short-message-altered",
+                        || format!("task_message({:?}, {}, {}) = {:?}", msg, seconds, width, out),
+                        replay,
+                    );
+                    return;
+                }
+                res.outcome("uncut");
+            }
+        }
+    }
+}
+
+fn check_truncate(s: &str, max: usize, job: &str, res: &mut ShardResult) {
+    res.evaluations += 1;
+    let replay = || json!({"job": job, "kind": "truncate", "msg": s, "width": max});
+    match catch(|| n2::verif::verif_truncate(s, max).to_string()) {
+        Err(p) => res.violation(
+            &p.key(),
+            || format!("truncate({:?}, {}) panicked: {}", s, max, p.message),
+            replay,
+        ),
+        Ok(out) => {
+            if out.len() > max || !s.starts_with(&out) || (s.len() <= max && out != s) {
+                res.violation(
+                    "truncate-wrong",
+                    || format!("truncate({:?}, {}) = {:?}", s, max, out),
+                    replay,
+                );
+            } else {
+                // Cut as late as possible: next boundary would exceed max.
+                if out.len() < s.len() {
+                    res.nontrivial += 1;
+                    let next = s[out.len()..].chars().next().map(|c| c.len_utf8()).unwrap_or(0);
+                    if out.len() + next <= max {
+                        res.violation(
+                            "truncate-cuts-too-early",
+                            || format!("truncate({:?}, {}) = {:?}", s, max, out),
+                            replay,
+                        );
+                        return;
+                    }
+                    res.outcome("cut");
+                } else {
+                    res.outcome("uncut");
+                }
+            }
+        }
+    }
+}
+
+fn check_bar(counts: [usize; 6], size: usize, job: &str, res: &mut ShardResult) {
+    res.evaluations += 1;
+    let replay = || json!({"job": job, "kind": "bar", "counts": counts, "width": size});
+    match catch(|| n2::verif::verif_progress_bar(counts, size)) {
+        Err(p) => res.violation(
+            &p.key(),
+            || format!("progress_bar({:?}, {}) panicked: {}", counts, size, p.message),
+            replay,
+        ),
+        Ok(bar) => {
+            if bar.len() != size || bar.chars().count() != size {
+                res.violation(
+                    "bar-width-not-nominal",
+                    || format!("progress_bar({:?}, {}) = {:?} has width {}", counts, size, bar, bar.len()),
+                    replay,
+                );
+                return;
+            }
+            // Shape: '=' then '-' then ' '.
+            let t = bar.trim_start_matches('=').trim_start_matches('-').trim_start_matches(' ');
+            if !t.is_empty() {
+                res.violation(
+                    "bar-shape",
+                    || format!("progress_bar({:?}, {}) = {:?}", counts, size, bar),
+                    replay,
+                );
+                return;
+            }
+            if counts.iter().filter(|&&c| c > 0).count() >= 2 {
+                res.nontrivial += 1;
+            }
+            res.outcome(&format!(
+                "bar-{}{}{}",
+                if bar.contains('=') { "=" } else { "" },
+                if bar.contains('-') { "-" } else { "" },
+                if bar.contains(' ') { "_" } else { "" }
+            ));
+        }
+    }
+}
+
+/// Messages whose cut index (width - note - 3) falls at every offset of a
+/// 1/2/3/4-byte character.
+fn aligned_messages(width: usize, seconds: usize, f: &mut dyn FnMut(&str)) {
+    let note = time_note(seconds);
+    let cut = width as i64 - note.len() as i64 - 3;
+    for ch in CHARS {
+        let clen = ch.len() as i64;
+        // Place the multi-byte character so that it starts at cut - k.
+        for k in 0..clen {
+            let start = cut - k;
+            if start < 0 {
+                continue;
+            }
+            for total in [width.saturating_sub(1), width, width + 1, width + 10, 4 * width] {
+                let mut m = "x".repeat(start as usize);
+                m.push_str(ch);
+                while m.len() < total {
+                    m.push('y');
+                }
+                f(&m);
+                // The same, made entirely of this character after the prefix.
+                let mut m2 = "x".repeat(start as usize);
+                while m2.len() < total {
+                    m2.push_str(ch);
+                }
+                f(&m2);
+            }
+        }
+    }
+}
+
+pub fn run(ctx: &mut Ctx) -> ShardResult {
+    let mut res = ShardResult::default();
+    let job = ctx.job.clone();
+    if let Some(case) = &ctx.replay {
+        let msg = case["msg"].as_str().unwrap_or("").to_string();
+        let width = case["width"].as_u64().unwrap_or(0) as usize;
+        match case["kind"].as_str().unwrap_or("") {
+            "message" => check_message(&msg, case["seconds"].as_u64().unwrap_or(0) as usize, width, &job, &mut res),
+            "truncate" => check_truncate(&msg, width, &job, &mut res),
+            "bar" => {
+                let mut c = [0usize; 6];
+                for (i, x) in case["counts"].as_array().expect("counts").iter().enumerate() {
+                    c[i] = x.as_u64().unwrap_or(0) as usize;
+                }
+                check_bar(c, width, &job, &mut res);
+            }
+            "frame" => check_frame(case["counts_small"].as_u64().unwrap_or(0) as usize, &msg, case["seconds"].as_u64().unwrap_or(0), width, case["line"].as_str(), &job, &mut res),
+            other => panic!("unknown render replay kind {}", other),
+        }
+        return res;
+    }
+    let parts: Vec<&str> = job.split(':').collect();
+    match parts[1] {
+        "message-align" => {
+            let mut idx = 0u64;
+            for width in 10..=300usize {
+                if (width as u64) % ctx.nshards != ctx.shard {
+                    continue;
+                }
+                for &s in SECONDS {
+                    aligned_messages(width, s, &mut |m| {
+                        idx += 1;
+                        ctx.marker.set(idx, m.as_bytes());
+                        check_message(m, s, width, &job, &mut res);
+                        if idx % 50_021 == 0 {
+                            res.sample(|| json!({"msg": m, "seconds": s, "width": width}));
+                        }
+                    });
+                }
+            }
+        }
+        "message-short" => {
+            let max: u32 = parts[2].parse().expect("bound");
+            let k = CHARS.len() as u64;
+            let total = count_upto(k, 0, max);
+            let (lo, hi) = shard_range(total, ctx.shard, ctx.nshards);
+            let mut m = String::new();
+            for_range(k, 0, max, lo, hi, |idx, seq| {
+                m.clear();
+                for &c in seq {
+                    m.push_str(CHARS[c as usize]);
+                }
+                ctx.marker.set(idx, m.as_bytes());
+                for width in 10..=14usize {
+                    for &s in &[0usize, 3, 100, 1000, 1_000_000] {
+                        check_message(&m, s, width, &job, &mut res);
+                    }
+                    check_truncate(&m, width - 2, &job, &mut res);
+                }
+                if idx % 1009 == 0 {
+                    res.sample(|| json!({"msg": m}));
+                }
+            });
+        }
+        "truncate" => {
+            let mut idx = 0u64;
+            for max in 0..=300usize {
+                if (max as u64) % ctx.nshards != ctx.shard {
+                    continue;
+                }
+                for ch in CHARS {
+                    for k in 0..ch.len() {
+                        if max < k {
+                            continue;
+                        }
+                        for total in [max.saturating_sub(1), max, max + 1, max + 7] {
+                            let mut m = "x".repeat(max - k);
+                            m.push_str(ch);
+                            while m.len() < total {
+                                m.push_str(ch);
+                            }
+                            idx += 1;
+                            ctx.marker.set(idx, m.as_bytes());
+                            check_truncate(&m, max, &job, &mut res);
+                        }
+                    }
+                }
+            }
+        }
+        "bar" => {
+            let maxc: u64 = parts[2].parse().expect("bound");
+            let k = maxc + 1;
+            let total = k.pow(6);
+            let (lo, hi) = shard_range(total, ctx.shard, ctx.nshards);
+            for idx in lo..hi {
+                let d = vcore::enumerate::mixed_decode(idx, &[k; 6]);
+                let counts = [d[0] as usize, d[1] as usize, d[2] as usize, d[3] as usize, d[4] as usize, d[5] as usize];
+                ctx.marker.set(idx, format!("{:?}", counts).as_bytes());
+                for size in [1usize, 2, 3, 5, 7, 10, 39, 40] {
+                    check_bar(counts, size, &job, &mut res);
+                }
+                // Scaled vectors (large builds).
+                if idx % 7 == 0 {
+                    for scale in [10usize, 1000, 100_000] {
+                        let c = counts.map(|x| x * scale);
+                        check_bar(c, 40, &job, &mut res);
+                    }
+                }
+                if idx % 20_011 == 0 {
+                    res.sample(|| json!({"counts": counts, "bar40": n2::verif::verif_progress_bar(counts, 40)}));
+                }
+            }
+            if ctx.shard == 0 {
+                for size in 1..=40 {
+                    for c in [[0usize; 6], [1, 0, 0, 0, 0, 0], [0, 0, 0, 0, 1, 0], [1, 1, 1, 1, 1, 1], [100, 50, 0, 3, 2, 1]] {
+                        check_bar(c, size, &job, &mut res);
+                    }
+                }
+            }
+        }
+        "frame" => {
+            crate::exec::install_hooks();
+            let mut idx = 0u64;
+            for width in 10..=300u64 {
+                if width % ctx.nshards != ctx.shard {
+                    continue;
+                }
+                for &s in &[0u64, 5, 1000, 1_000_000] {
+                    for ch in CHARS {
+                        for len in [width as usize - 4, width as usize - 1, width as usize, width as usize + 5] {
+                            let mut m = String::new();
+                            while m.len() < len {
+                                m.push_str(ch);
+                            }
+                            for line in [None, Some(m.as_str())] {
+                                idx += 1;
+                                ctx.marker.set(idx, m.as_bytes());
+                                check_frame((idx % 5) as usize, &m, s, width as usize, line, &job, &mut res);
+                            }
+                        }
+                    }
+                }
+            }
+        }
+        other => panic!("unknown render job {}", other),
+    }
+    res
+}
+
+/// One whole frame of the display through the real print_progress, at a
+/// forced terminal width.  Output goes to the worker's stdout (discarded).
+fn check_frame(counts_small: usize, msg: &str, seconds: u64, width: usize, line: Option<&str>, job: &str, res: &mut ShardResult) {
+    res.evaluations += 1;
+    crate::exec::install_hooks();
+    crate::exec::set_cols(Some(Some(width)));
+    let counts = [counts_small, 1, 0, 1, counts_small * 2, counts_small % 2];
+    let tasks = vec![(msg.to_string(), seconds, line.map(|l| l.as_bytes().to_vec()))];
+    let r = catch(|| n2::verif::verif_print_progress(counts, &tasks));
+    crate::exec::set_cols(None);
+    match r {
+        Ok(()) => {
+            res.nontrivial += 1;
+            res.outcome("frame-rendered");
+        }
+        Err(p) => res.violation(
+            &p.key(),
+            || format!("print_progress at width {} with message {:?} ({} s), last line {:?} panicked: {} at {}", width, msg, seconds, line, p.message, p.location),
+            || json!({"job": job, "kind": "frame", "counts_small": counts_small, "msg": msg, "seconds": seconds, "width": width, "line": line}),
+        ),
+    }
 }
